@@ -46,56 +46,17 @@ theorem C08_defined (op : String) (hop : op ∈ allOps) (c : Ctx) (x y : Dec) (i
   case _ => obtain ⟨o, h1, _⟩ := C08_log c x y e false (by simpa using h); simp [runCtxOp, h1]
   case _ => obtain ⟨o, h1, _⟩ := C08_pow c x y e h; simp [runCtxOp, h1]
 
-/- ORIGINAL STATEMENT (false as stated, see the counterexamples below):
-
 /-- … and decides it as prescribed: result form, sign, and InvalidOperation / DivisionByZero /
 DivisionUndefined exactly as the table says, no Inexact/Overflow/Underflow/DivisionImpossible.
-(`prec = 0` makes Quo/QuoInteger/Exp return the zero-precision error first: excluded by `hd`.) -/
+(`prec = 0` makes Quo/QuoInteger/Exp return the zero-precision error first: excluded by `hd`.)
+
+History: before `Rounder.Round` was repaired to copy non-finite operands, `Abs`/`Neg`/`Round`/`Reduce`
+sent an infinity through `setExponent`, and this statement was false (e.g. `Abs` of an infinity whose
+exponent field exceeds `emax` raised Overflow|Inexact).  With `roundX` returning `(x, {})` for
+non-finite `x` it holds with no side condition. -/
 theorem C08_specials (op : String) (hop : op ∈ allOps) (c : Ctx) (x y : Dec) (i : Int) (e : Expect) (o : Out)
     (h : specials op x y = some e) (ho : runCtxOp op c x y i = some o)
-    (hd : o.err = .none ∨ o.err = .trap) : e.meets o.d o.fl = true
-
-`Abs`, `Neg`, `Round` and `Reduce` send an infinite operand through `Context.round`
-(`Rounder.Round` → `setExponent`), which looks at the operand's `Exponent` and `Coeff` fields without
-looking at its `Form`.  An `Infinite` operand whose exponent field exceeds `c.emax` (or, for a
-context with `emax < 0`, even the canonical infinity with exponent 0) is therefore "rounded" to an
-infinity with Overflow|Inexact raised; one with a long non-zero coefficient gets Inexact|Rounded.
-The statement quantifies over all `x : Dec` and all `c : Ctx` with no well-formedness hypothesis, so
-these operands are counterexamples.  All other cells of the table hold unconditionally. -/
-
-/-- counterexample 1: `Abs(Infinity)` with an exponent field of 50 under `emax = 10` raises Overflow|Inexact -/
-def cexCtx : Ctx := { prec := 5, emax := 10, emin := -10 }
-def cexInf : Dec := { form := .infinite, exp := 50 }
-example : runCtxOp "abs" cexCtx cexInf {} 0 = some (absOp cexCtx cexInf) := by decide
-example : (absOp cexCtx cexInf).err = .none := by decide
-example : ((absOp cexCtx cexInf).fl.overflow, (absOp cexCtx cexInf).fl.inexact) = (true, true) := by decide
-example : (specials "abs" cexInf {}).map (fun e => e.meets (absOp cexCtx cexInf).d (absOp cexCtx cexInf).fl)
-    = some false := by decide
-/-- counterexample 2: the canonical `-Infinity` (coefficient 0, exponent 0) under a context with `emax = -5` -/
-def cexCtx2 : Ctx := { prec := 3, emax := -5, emin := -10 }
-def cexInf2 : Dec := { form := .infinite, neg := true }
-example : (negOp cexCtx2 cexInf2).err = .none := by decide
-example : (specials "neg" cexInf2 {}).map (fun e => e.meets (negOp cexCtx2 cexInf2).d (negOp cexCtx2 cexInf2).fl)
-    = some false := by decide
-/-- counterexample 3: an infinity with a six-digit coefficient field under precision 5 raises Inexact|Rounded -/
-def cexInf3 : Dec := { form := .infinite, coeff := 123456 }
-example : (roundOp cexCtx cexInf3).err = .none := by decide
-example : (specials "round" cexInf3 {}).map (fun e => e.meets (roundOp cexCtx cexInf3).d (roundOp cexCtx cexInf3).fl)
-    = some false := by decide
-
-/-- the operations that pass an infinite operand through `Context.round` -/
-def roundsInf : List String := ["abs", "neg", "round", "reduce"]
-
-/-- … and decides it as prescribed: result form, sign, and InvalidOperation / DivisionByZero /
-DivisionUndefined exactly as the table says, no Inexact/Overflow/Underflow/DivisionImpossible.
-Strongest true variant of `C08_specials`: for `Abs`/`Neg`/`Round`/`Reduce` an infinite operand must
-have coefficient field 0 and an exponent field not above `emax` (`InfOK`; every infinity the package
-produces has both fields 0).  Every other operation, and every other operand class, is unrestricted. -/
-theorem C08_specials_partial (op : String) (hop : op ∈ allOps) (c : Ctx) (x y : Dec) (i : Int) (e : Expect) (o : Out)
-    (h : specials op x y = some e) (ho : runCtxOp op c x y i = some o)
-    (hd : o.err = .none ∨ o.err = .trap)
-    (hinf : op ∈ roundsInf → x.form = .infinite → x.coeff = 0 ∧ x.exp ≤ c.emax) :
-    e.meets o.d o.fl = true := by
+    (hd : o.err = .none ∨ o.err = .trap) : e.meets o.d o.fl = true := by
   simp only [allOps, List.mem_cons, List.not_mem_nil, or_false] at hop
   rcases hop with rfl | rfl | rfl | rfl | rfl | rfl | rfl | rfl | rfl | rfl | rfl | rfl | rfl | rfl | rfl | rfl |
     rfl | rfl | rfl | rfl | rfl | rfl
@@ -105,10 +66,10 @@ theorem C08_specials_partial (op : String) (hop : op ∈ allOps) (c : Ctx) (x y 
   case _ => simp [runCtxOp] at ho; subst ho; exact C08_quo c x y e h
   case _ => simp [runCtxOp] at ho; subst ho; exact C08_quoint c x y e h
   case _ => simp [runCtxOp] at ho; subst ho; exact C08_rem c x y e h
-  case _ => simp [runCtxOp] at ho; subst ho; exact C08_abs c x y e h hd (hinf (by decide))
-  case _ => simp [runCtxOp] at ho; subst ho; exact C08_neg c x y e h hd (hinf (by decide))
-  case _ => simp [runCtxOp] at ho; subst ho; exact C08_round c x y e h hd (hinf (by decide))
-  case _ => simp [runCtxOp] at ho; subst ho; exact C08_reduce c x y e h hd (hinf (by decide))
+  case _ => simp [runCtxOp] at ho; subst ho; exact C08_abs c x y e h
+  case _ => simp [runCtxOp] at ho; subst ho; exact C08_neg c x y e h
+  case _ => simp [runCtxOp] at ho; subst ho; exact C08_round c x y e h
+  case _ => simp [runCtxOp] at ho; subst ho; exact C08_reduce c x y e h
   case _ => simp [runCtxOp] at ho; subst ho; exact C08_cmp c x y e h
   case _ => simp [runCtxOp] at ho; subst ho; exact C08_quantize c x y i e h
   case _ => simp [runCtxOp] at ho; subst ho; exact C08_rtie c x y e h
@@ -131,15 +92,6 @@ theorem C08_specials_partial (op : String) (hop : op ∈ allOps) (c : Ctx) (x y 
   case _ =>
     obtain ⟨o', h1, h2⟩ := C08_pow c x y e h
     simp [runCtxOp, h1] at ho; subst ho; exact h2
-
-/-- corollary: the original statement holds as soon as `0 ≤ emax` and infinite operands are the
-canonical ones (coefficient and exponent fields 0) — in particular for every `Ctx.WF`/`Ctx.WF0` context -/
-theorem C08_specials_canonical (op : String) (hop : op ∈ allOps) (c : Ctx) (x y : Dec) (i : Int) (e : Expect) (o : Out)
-    (h : specials op x y = some e) (ho : runCtxOp op c x y i = some o)
-    (hd : o.err = .none ∨ o.err = .trap)
-    (hemax : 0 ≤ c.emax) (hx : x.form = .infinite → x.coeff = 0 ∧ x.exp = 0) :
-    e.meets o.d o.fl = true :=
-  C08_specials_partial op hop c x y i e o h ho hd (fun _ hf => ⟨(hx hf).1, by rw [(hx hf).2]; exact hemax⟩)
 
 /-- a signalling NaN operand always raises InvalidOperation and yields a quiet NaN -/
 theorem C08_snan (op : String) (hop : op ∈ allOps) (c : Ctx) (x y : Dec) (i : Int) (o : Out)
@@ -200,16 +152,20 @@ theorem C08_zero_sum_sign (c : Ctx) (hc : c.WF) (x y : Dec) (hx : x.form = .fini
       unfold addOp
       simp [hnan, hx, hy, hu, hv, hn]
     rw [hE] at hd ⊢
-    obtain ⟨a1, a2, a3, a4⟩ := ctxRound_coeff0 c { form := .finite, neg := (c.mode == .floor), exp := s, coeff := 0 } rfl
-      (finish_noSys c _ hd) (Or.inl rfl)
+    obtain ⟨a1, a2, a3, a4⟩ := ctxRound_coeff0 c { form := .finite, neg := (c.mode == .floor), exp := s, coeff := 0 } rfl rfl
+      (finish_noSys c _ hd)
     exact ⟨a2, a3⟩
 
 example : ((specials "pow" { coeff := 2 } { form := .infinite }).map (·.form)) = some .infinite := by decide
 example : (mulOp {} { coeff := 0 } { form := .infinite }).fl.invalidOp = true := by decide
 
+/-- the former counterexamples to `C08_specials` now behave as the table says -/
+example : (absOp { prec := 5, emax := 10, emin := -10 } { form := .infinite, exp := 50 }).fl = {} := by decide
+example : (negOp { prec := 3, emax := -5, emin := -10 } { form := .infinite, neg := true }).fl = {} := by decide
+example : (roundOp { prec := 5, emax := 10, emin := -10 } { form := .infinite, coeff := 123456 }).fl = {} := by decide
+
 #print axioms C08_defined
-#print axioms C08_specials_partial
-#print axioms C08_specials_canonical
+#print axioms C08_specials
 #print axioms C08_snan
 #print axioms C08_zero_sum_sign
 
